@@ -1,7 +1,7 @@
 SPECIFICATION Spec
 CONSTANTS
   PlanRows <- AllRows
-  MaxH = 400
+  MaxH = 330
   MaxBlocks = 5
   Maxes <- MCMaxes
   FieldMasks <- MCMasks
